@@ -34,14 +34,20 @@ claim('C03', 'proof',
 
 claim('C16', 'other',
       'typestate/effect analysis on per-method CFGs (must-pass-through invalidation, eq/hash field sets, package-wide who-may-write scan); '
-      'abstract interpretation of length() on a segment holding a stale symbolic cache entry (keyed hits, tolerance directions, fills)',
+      'abstract interpretation of length() on a segment holding a stale symbolic cache entry (keyed hits, tolerance directions, fills), of every '
+      'primitive mutator from a consistent populated state (post-state judged), and of one-step query-mutate-query histories on segments and '
+      'paths compared with freshly built objects (hash() made adversarial)',
       'Decides for ALL mutation/query histories (all code paths, not sampled sequences) the structural discipline that '
       'makes the property hold: every statement of Path that can mutate the segment store reaches every normal exit only '
       'through `self._length = None` and a refresh of _start/_end (helper methods summarised by must-assign sets); reads of the '
       'store after a shrinking mutation are emptiness-guarded; every cached return of QuadraticBezier/CubicBezier/Arc/Path is '
       'control-dependent on its key and on tolerance guards whose direction is derived from segment_length; cache fills write all '
       'key fields; caches shared with a reversed copy are re-keyed; no foreign writer of the private fields exists; '
-      '__hash__ fields are a subset of __eq__ fields (one known finding: Path._closed). Numeric equality of recomputed values '
+      '__hash__ fields are a subset of __eq__ fields (one known finding: Path._closed). Semantically, for symbolic paths/segments: after every '
+      'primitive mutation (all index shapes, path sizes 3/1/0) no length table of the old segment list survives and the cached end points are '
+      'the new ones; the methods that rebuild the table are discovered by interpretation and their tolerance guards judged; point/T2t/t2T/length/'
+      'start/end after each mutation equal those of a fresh path; bpoints/poly/point/derivative/bbox/hash of a segment after reassigning a '
+      'control point equal those of a fresh segment (whatever memo exists, however keyed). Numeric equality of recomputed values '
       'is not re-derived (determinism trusted).',
       TRUST + ' MutableSequence mixins reduce to insert/__setitem__/__delitem__ (collections.abc contract). Implicit exceptions '
       '(e.g. IndexError) are not CFG edges; R16.2 covers the one place where they matter.', 'DESIGN.md section 3 C16')
